@@ -38,7 +38,7 @@ NOT_DECIDED = [
     "ragged rows and merged cells (grid geometry is value level)",
     "order of tables in the output", "index arithmetic of the trimming code (which column index is recorded as the last data column)"]
 TRUSTED = ["the tree grammars in sa/schemas", "ElementTree axis semantics", "openpyxl iter_rows(values_only=True) yields every cell of the used range"]
-FLOORS = {"C13-TAIL": 3, "C13-GRID": 4, "C13-ROWS": 4, "C13-ODS": 2, "C13-WALK": 60, "C13-KEY": 5, "C13-TRIM": 8, "C13-SPINE": 2, "C13-DIM": 5, "C13-VIEW": 5}
+FLOORS = {"C13-STACK": 1, "C13-TAIL": 3, "C13-GRID": 4, "C13-ROWS": 4, "C13-ODS": 2, "C13-WALK": 60, "C13-KEY": 5, "C13-TRIM": 8, "C13-SPINE": 2, "C13-DIM": 5, "C13-VIEW": 5}
 
 W = s_docx.NS["w"]
 TABLE_WALKS = [
@@ -548,4 +548,74 @@ def rule_tail(ctx: Ctx) -> RuleReport:
     return rep
 
 
-RULES = [rule_walk, rule_key, rule_trim, rule_spine, rule_dim, rule_view, rule_rows, rule_ods, rule_grid, rule_tail]
+def rule_stack(ctx: Ctx) -> RuleReport:
+    """The HTML grid is read off the tree the parser callbacks build: an end tag closes an element only when that element is open. An end
+    tag nobody opened (`</p>` or `</span>` inside a cell, ubiquitous in hand-written and mail HTML) must not close the cell, the row and
+    the table it sits in."""
+    rep = RuleReport("C13-STACK", "in handle_endtag every pop of the open-element stack executes under a condition that relates the end tag's name to the stack (the element is open)")
+    n = 0
+    for cls in ctx.p.all_classes():
+        if "HTMLParser" not in ctx.p.base_names(cls):
+            continue
+        hs, he = cls.methods.get("handle_starttag"), cls.methods.get("handle_endtag")
+        if hs is None or he is None:
+            continue
+
+        def self_attr(e):
+            return e.attr if isinstance(e, ast.Attribute) and isinstance(e.value, ast.Name) and e.value.id == "self" else None
+
+        pushed = {self_attr(c.func.value) for c in ast.walk(hs.node) if isinstance(c, ast.Call) and isinstance(c.func, ast.Attribute) and c.func.attr == "append" and self_attr(c.func.value)}
+        args = he.node.args.args
+        if len(args) < 2:
+            continue
+        tagnames = {args[1].arg}
+        changed = True
+        while changed:
+            changed = False
+            for a in walk_own(he.node):
+                if isinstance(a, ast.Assign) and len(a.targets) == 1 and isinstance(a.targets[0], ast.Name) and a.targets[0].id not in tagnames and any(isinstance(x, ast.Name) and x.id in tagnames for x in ast.walk(a.value)):
+                    tagnames.add(a.targets[0].id)
+                    changed = True
+
+        def relates(test, stack):
+            names = {x.id for x in ast.walk(test) if isinstance(x, ast.Name)}
+            return bool(names & tagnames) and any(self_attr(x) == stack for x in ast.walk(test))
+
+        def conditions(body, target, acc):
+            """tests that hold when `target` executes: enclosing if / while tests and the tests of preceding guards that leave"""
+            pre = []
+            for st in body:
+                inside = any(x is target for x in ast.walk(st))
+                if inside:
+                    acc.extend(pre)
+                    if isinstance(st, (ast.If, ast.While)):
+                        if any(x is target for b in st.body for x in ast.walk(b)):
+                            acc.append(st.test)
+                            return conditions(st.body, target, acc)
+                        return conditions(st.orelse, target, acc)
+                    if isinstance(st, (ast.For, ast.With, ast.Try)):
+                        for blk in (getattr(st, "body", []), getattr(st, "orelse", []), getattr(st, "finalbody", [])) + tuple(h.body for h in getattr(st, "handlers", [])):
+                            if any(x is target for b in blk for x in ast.walk(b)):
+                                return conditions(blk, target, acc)
+                    return acc
+                if isinstance(st, ast.If) and st.body and isinstance(st.body[-1], (ast.Return, ast.Raise)) and not st.orelse:
+                    pre.append(st.test)
+            return acc
+
+        for c in walk_own(he.node):
+            if isinstance(c, ast.Call) and isinstance(c.func, ast.Attribute) and c.func.attr == "pop" and self_attr(c.func.value) in pushed:
+                stack = self_attr(c.func.value)
+                stmt = next(st for st in ast.walk(he.node) if isinstance(st, ast.stmt) and not isinstance(st, (ast.If, ast.While, ast.For, ast.With, ast.Try, ast.FunctionDef)) and any(x is c for x in ast.walk(st)))
+                conds = conditions(he.node.body, stmt, [])
+                n += 1
+                rep.unit(he.key)
+                if any(relates(t, stack) for t in conds):
+                    rep.ok({"parser": cls.name, "pop": short(c, 40), "under": [short(t, 50) for t in conds if relates(t, stack)]})
+                else:
+                    rep.fail(Finding("C13-STACK", cls.module.rel, he.qual, f"self.{stack}.pop() not conditional on the end tag being open", f"`{short(stmt, 60)}` runs for every end tag outside removed content, whether or not an element of that name is open (conditions on the way: {'; '.join(short(t, 40) for t in conds) or 'none'}): a stray `</p>` inside a table cell closes the cell, the row and the table, and the following cells land outside the grid", line=c.lineno))
+    if n < 1:
+        raise AnalysisError("C13-STACK: no pop of an open-element stack in an HTMLParser subclass found (1 confirmed: _HtmlTreeBuilder.handle_endtag)")
+    return rep
+
+
+RULES = [rule_walk, rule_key, rule_trim, rule_spine, rule_dim, rule_view, rule_rows, rule_ods, rule_grid, rule_tail, rule_stack]
